@@ -90,9 +90,10 @@ def check(repo: Repo, rep: Report) -> None:
     root_tf = repo.fn(TF, "throttle_first_.subscribe")
     ems = [s for g, s, k in TC.downstream_sites(root_tf, ("on_next",)) if g is tf]
     flag = None
+    raised = set(names_assigned_const(tf, True))
     for s in ems:
         for e, p_ in s.ctx.guards:
-            if p_ and isinstance(e, ast.Name):
+            if p_ and isinstance(e, ast.Name) and (e.id in raised or flag is None):
                 flag = e.id
     dec = [s for s in sites(tf) if flag and isinstance(s.node, ast.Assign) and u(s.node.targets[0]) == flag and u(s.node.value) == "True"]
     ok = False
